@@ -6,6 +6,7 @@ import (
 	"fmt"
 	"sort"
 	"strings"
+	"sync"
 )
 
 type SortKind int
@@ -27,8 +28,11 @@ type Sort struct {
 }
 
 var sortTab = map[string]*Sort{}
+var sortMu sync.Mutex
 
 func internSort(s *Sort) *Sort {
+	sortMu.Lock()
+	defer sortMu.Unlock()
 	if x, ok := sortTab[s.s]; ok {
 		return x
 	}
@@ -499,6 +503,20 @@ func (c *Ctx) BVBin(op string, a, b *Term) *Term {
 		}
 		if a == b {
 			return c.BVLit(0, w)
+		}
+		{
+			// (x + k1) - (x + k2) = k1 - k2
+			ba, ka := a, uint64(0)
+			if a.Op == "bvadd" && a.Args[1].Op == "bv" {
+				ba, ka = a.Args[0], a.Args[1].V
+			}
+			bb, kb := b, uint64(0)
+			if b.Op == "bvadd" && b.Args[1].Op == "bv" {
+				bb, kb = b.Args[0], b.Args[1].V
+			}
+			if ba == bb {
+				return c.BVLit(ka-kb, w)
+			}
 		}
 		if b.Op == "bv" {
 			return c.BVBin("bvadd", a, c.BVLit(-b.V, w))
